@@ -173,6 +173,14 @@ var specs = map[string]*CheckSpec{
 		Stub:   append([]string{"atp server -> scripted server (reactive transcript, canonical CBOR)"}, commonStub...),
 		Assume: []string{"premise: the server stream ends, errors or garbles; runs in which only the client's writes failed while the server stream stayed intact are excluded and counted", "a success result is legitimate iff a well-formed work-done for that run ID is present in the bytes actually delivered, as decided by the reference decoder"},
 	},
+	"C09": {
+		ID: "C09", Flavour: "atp", Level: "exploration",
+		Quick:    []Batch{{Name: "c09.session", Count: 9000}},
+		Thorough: []Batch{{Name: "c09.session", Count: 500000}},
+		Rule:     "each run = one seeded session (real client and server, generated rich plugin schema with units, enums with display data, defaults, presence rules, disabled properties, references, one-of, signal handlers and emitters) whose hello message is delivered over a fragmenting/coalescing transport; the engine's rebuilt copy is compared with the plugin's own copy: identical self-description, describe/rebuild/describe fixed point, equal accept/reject verdicts on every input and signal payload of the session, outputs accepted by the engine-side output schema; distinct = distinct schedule signature x transport configuration; non-trivial = at least one preemption",
+		Real:     atpReal, Stub: commonStub,
+		Assume: []string{"restricted claim: only the clause 'the same holds for a whole plugin schema as carried in the ATP hello message' is decided; the direct and YAML round trips are pure and are not decided here", "behavioural equality is checked on the traffic of the session, not on all inputs"},
+	},
 	"C10": {
 		ID: "C10", Flavour: "atp", Level: "exploration",
 		Quick: []Batch{
